@@ -291,7 +291,7 @@ func runC16(c0 *Ctx) {
 		rm := find(ef, func(in ssa.Instruction) bool { return callTo(remove)(in) && inEvict(in) })
 		okRm := len(rm) >= 1
 		for _, r := range rm {
-			if !ir.DerivesFrom(ir.CallOf(r).Args[1], valIsCallTo(back)) {
+			if a := argsOf(r); len(a) < 1 || !ir.DerivesFrom(a[0], valIsCallTo(back)) {
 				okRm = false
 			}
 		}
